@@ -4,6 +4,11 @@ import glob, json, os, re
 V = '/verif'
 s = open(f'{V}/DESIGN.md').read()
 head = s[:s.index('## 11. As built, per property')]
+import subprocess
+n = 0
+for f in glob.glob(f'{V}/coq/Props/C*.v'):
+    n += len(re.findall(r'^\s*(?:Theorem|Lemma|Corollary)\s', open(f).read(), flags=re.M))
+head = re.sub(r'\(\d+ at the last regeneration\)', f'({n} at the last regeneration)', head)
 out = [head, '## 11. As built, per property\n\n',
        'These reports were written by whoever built each check, when it was finished (the files are `docs/Cxx.md`;\n'
        'this section is regenerated from them by `tools/mkdesign.py`). Each states the model scope, the theorems,\n'
